@@ -17,10 +17,13 @@ def setup():
         core.log(out[-1500:])
         if rc != 0:
             return 1
-        ok, out = core.build_model()
-        core.log("[setup] model:", out[-500:])
-        if not ok:
-            return 1
+        import glob
+        tags = [""] + sorted(os.path.basename(p)[7:-2] for p in glob.glob(os.path.join(core.COQ, "Extract", "Extract?*.v")))
+        for tag in tags:
+            ok, out = core.build_model(tag)
+            core.log("[setup] model %r:" % tag, out[-500:])
+            if not ok:
+                return 1
         ok, out = core.build_harness()
         core.log("[setup] harness:", out[-500:])
         if not ok:
@@ -52,7 +55,14 @@ def main(argv):
         i += 1
     seed = int(os.environ.get("VERIF_SEED", "20260929"))
     from . import props
+    import importlib
     fn = getattr(props, "check_" + pid, None)
+    if fn is None:
+        try:
+            mod = importlib.import_module("vlib.p_" + pid.lower())
+            fn = getattr(mod, "check_" + pid, None)
+        except ImportError:
+            fn = None
     if fn is None:
         print("no check for", pid, file=sys.stderr)
         return 2
